@@ -81,7 +81,11 @@ def gen(seed, tier, extra=None):
         elif k < 0.35:
             c['kind'] = 'bad'                        # a text that fails to parse, then the real text
             c['bad'] = rng.choice(['x = (1 +', 'if x:', 'y = fnA(1, \\', 'while true:\nz = 1', 'endif', 'zz = 1 \\\\'])
-        elif k < 0.42:
+        elif k < 0.40:
+            c['kind'] = 'stress'                     # many failing parses first (hidden state that accumulates)
+            c['stress'] = rng.choice([20, 60, 150, 400])
+            c['stress_seed'] = rng.randrange(1 << 30)
+        elif k < 0.46:
             c['kind'] = 'expr'
             g2 = gen_source.SourceGen(rng)
             c['text'] = g2.expr()
@@ -93,7 +97,8 @@ def gen(seed, tier, extra=None):
 # --------------------------------------------------------------------------------------------
 # layout
 # --------------------------------------------------------------------------------------------
-COMMENTS = ['# note', '#', '  # indented comment', '# trailing backslash \\', '#x = 1', '\t# tab']
+COMMENTS = ['# note', '#', '  # indented comment', '# trailing backslash \\', '#x = 1', '\t# tab', '# lone\rcarriage return',
+            '# x = 1\ry = 2']
 BLANKS = ['', '   ', '\t']
 
 
@@ -132,7 +137,10 @@ def lay_out(lines, c, shipped_text=False):
         parts.append(line[prev:])
         for pi, part in enumerate(parts):
             indent = rng.choice(['', '', '  ', '    ', '\t', ' \t '])
-            trail = rng.choice(['', '', ' ', '\t', '  '])
+            trail = rng.choice(['', '', ' ', '\t', '  ', ' \r'])
+            if trail.endswith('\r') and c.get('no_cr_trail'):
+                trail = ' '     # (C06 compares line TEXTS across delivery modes; a CR before the line end would be
+                                #  consumed with the LF in one mode and kept in the other)
             if pi < len(parts) - 1:
                 text = indent + part + rng.choice([' ', '', '  ', '\t']) + '\\' + trail
                 stats['breaks'] += 1
@@ -256,6 +264,21 @@ def run(plan, stats):
                     stats.probes['bad_text_accepted'] += 1
                 except BareScriptParserError:
                     stats.probes['parser_error_between_parses'] += 1
+            if c['kind'] == 'stress':
+                srng = stream(c['stress_seed'], 'stress')
+                bad_texts = ['x = ((((((((1 +', 'fnA(1, (2, ((3', 'y = fnB(fnA(fnB(fnA(', '((((', 'if (((a:', 'z = (1 + (2 * (3 - ',
+                             'while fnA((1:', 'return ((', "w = arrayNew((('a'", 'jumpif ((x) lab', 'for v in ((arr:', 'a = (b))']
+                for _ in range(c['stress']):
+                    t = srng.choice(bad_texts)
+                    try:
+                        if srng.random() < 0.5:
+                            parse_script(t + '\n')
+                        else:
+                            parse_expression(t.split('=', 1)[-1])
+                    except BareScriptParserError:
+                        pass
+                stats.probes['stress_failing_parses_before_real_parse'] += 1
+                sched.event(task, 'stress-done', None)
             if c.get('abort_after') is not None:
                 log1 = []
                 try:
@@ -411,6 +434,10 @@ def simplify(plan, v):
                 n = copy.deepcopy(plan)
                 n['clients'][ci][key] = val
                 out.append(n)
+        if c.get('kind') == 'stress' and c.get('stress', 0) > 20:
+            n = copy.deepcopy(plan)
+            n['clients'][ci]['stress'] = max(20, c['stress'] // 2)
+            out.append(n)
         for key in ('abort_after',):
             if c.get(key) is not None:
                 n = copy.deepcopy(plan)
